@@ -9,7 +9,7 @@
 -/
 import CSD.Lemmas.Dups
 import CSD.Spec
-import CSD.Lemmas.FM8
+import CSD.Lemmas.FM11
 import CSD.Generated.Bodies
 import CSD.Model.SourceText
 
